@@ -48,6 +48,7 @@ monitors! {
     "C15" => c15,
     "C16" => c16,
     "C17" => c17,
+    "C18" => c18,
 }
 
 pub fn assumptions(prop: &str) -> Vec<String> {
